@@ -80,7 +80,7 @@ def reconstruct_refusals(ctx):
                       "the value compared with the number of packages is not the minimum of the packages' "
                       "min_signers fields", f.loc)
         refusal(ctx, f, "SEP", "G09:duplicate-identifiers",
-                [("set.len==len", cmp_fact("eq", length(lambda t: mentions(t, call("collect")) and mentions(t, arg(1))),
+                [("set.len==len", cmp_fact("eq", length(dedup_of(ctx.prog, f, FnView.get(ctx.prog, f), arg(1))),
                                            length(arg(1)), False))], sinks)
 
 def threshold_provenance(ctx):
